@@ -3,7 +3,7 @@
 # (3) its demo passes without it.  Results -> /var/tmp/cm-results/<prop>-<n>.txt ; scratch worktree + target removed at the end.
 set -u
 RES=${CMRES:-/var/tmp/cm-results}; mkdir -p $RES
-WT=/var/tmp/cm-wt; TGT=/var/tmp/cm-target
+WT=/var/tmp/cm-wt${CMID:-}; TGT=/var/tmp/cm-target${CMID:-}
 git -C /repo worktree remove --force $WT >/dev/null 2>&1; rm -rf $WT
 git -C /repo worktree add --detach $WT HEAD >/dev/null 2>&1 || exit 3
 export CARGO_TARGET_DIR=$TGT CARGO_NET_OFFLINE=true RUST_BACKTRACE=0
@@ -26,4 +26,4 @@ for P in "$@"; do
   done
 done
 cd /; git -C /repo worktree remove --force $WT >/dev/null 2>&1; rm -rf $WT $TGT
-echo DONE > $RES/DONE
+echo DONE > $RES/DONE${CMID:-}
